@@ -1,191 +1,2 @@
-(** * SrcEquiv2: gen/Src.v = model, continued: src/bellerophon.rs and src/slow.rs *)
-From Coq Require Import ZArith List Bool Lia Znumtheory.
-From Coq Require Import ZifyBool.
-From ML Require Import base.RustSem model.Fmt model.FloatOps model.Mask model.Num model.Number
-  model.Rounding model.Bellerophon model.Slow gen.Consts gen.Tables gen.BTables.
-From ML Require Import gen.Src.
-From ML Require Import proofs.SrcEquiv.
-Import ListNotations.
-Ltac Zify.zify_post_hook ::= Z.div_mod_to_equations.
-Open Scope Z_scope.
-Open Scope rust_scope.
-
-(** ** bellerophon.rs *)
-Theorem rs_error_scale_eq : forall b, rs_error_scale b = Ok error_scale.
-Proof. reflexivity. Qed.
-Theorem rs_error_halfscale_eq : forall b, rs_error_halfscale b = Ok error_halfscale.
-Proof. reflexivity. Qed.
-#[export] Hint Rewrite rs_error_scale_eq rs_error_halfscale_eq : rs_eq.
-
-Theorem rs_normalize_eq : forall b fp, u64_ok (mant fp) -> rs_normalize b fp = bnormalize b fp.
-Proof.
-  intros b fp H. unfold rs_normalize, bnormalize. pose proof (lz64_range _ H). crunch.
-Qed.
-
-Theorem rs_mul_eq : forall b x y, rs_mul b x y = bmul b x y.
-Proof. intros. unfold rs_mul, bmul. crunch. Qed.
-#[export] Hint Rewrite rs_mul_eq : rs_eq.
-
-Theorem rs_get_small_eq : forall BT b i, rs_get_small BT b i = get_small BT b i.
-Proof. intros. unfold rs_get_small, get_small, log2_exp. crunch. Qed.
-#[export] Hint Rewrite rs_get_small_eq : rs_eq.
-
-Theorem rs_get_small_int_eq : forall BT b i, rs_get_small_int BT b i = get_small_int BT i.
-Proof. intros. unfold rs_get_small_int, get_small_int. crunch. Qed.
-#[export] Hint Rewrite rs_get_small_int_eq : rs_eq.
-
-(** the i32 fields of BASE10_POWERS are i32 values, and the step is not -1 (it divides) *)
-Definition btables_ok (BT : btables) : Prop :=
-  i32_ok (BELL_STEP BT) /\ i32_ok (BELL_BIAS BT) /\ BELL_STEP BT <> -1.
-Lemma btables_ok_BTABLES : btables_ok BTABLES.
-Proof. unfold btables_ok, i32_ok; cbn. lia. Qed.
-
-Theorem rs_get_large_eq : forall BT b i, btables_ok BT -> rs_get_large BT b i = get_large BT b i.
-Proof.
-  intros BT b i (H1 & H2 & _). unfold rs_get_large, get_large, log2_exp. crunch.
-Qed.
-
-Theorem rs_error_is_accurate_eq : forall f b errors fp, fmt_ok f -> u32_ok errors ->
-  rs_error_is_accurate f b errors fp = error_is_accurate f b errors fp.
-Proof.
-  intros f b errors fp Hf He. unfold rs_error_is_accurate, error_is_accurate, u64_saturating_add.
-  crunch.
-Qed.
-
-Lemma bmul_range b x y r : bmul b x y = Ok r -> u64_ok (mant r).
-Proof.
-  unfold bmul. intros H. binv H. injection H as <-. cbn [mant].
-  eapply u64_add_range; eassumption.
-Qed.
-
-Lemma bnormalize_range b x r s : u64_ok (mant x) -> bnormalize b x = Ok (r, s) -> u64_ok (mant r).
-Proof.
-  unfold bnormalize. intros Hx H. destruct (negb _).
-  - binv H. injection H as <- <-. cbn [mant]. eapply u64_shl_range; eassumption.
-  - injection H as <- <-. assumption.
-Qed.
-
-Lemma u32_shl_range b x k a : u32_shl b x k = Ok a -> u32_ok a.
-Proof. apply shl_u_range. lia. Qed.
-Lemma wrapu64_ok z : u64_ok (wrapu 64 z).
-Proof. unfold u64_ok, wrapu. apply Z.mod_pos_bound. lia. Qed.
-
-(** derive the ranges of intermediate results from the equations collected while stepping *)
-Ltac learn :=
-  repeat match goal with
-  | H : bmul _ _ _ = Ok ?r |- _ =>
-      lazymatch goal with
-      | _ : u64_ok (mant r) |- _ => fail
-      | _ => pose proof (bmul_range _ _ _ _ H)
-      end
-  | H : bnormalize _ ?x = Ok (?r, _) |- _ =>
-      lazymatch goal with
-      | _ : u64_ok (mant r) |- _ => fail
-      | _ => assert (u64_ok (mant r))
-               by (eapply bnormalize_range; [|exact H]; cbn [mant];
-                   first [assumption | apply wrapu64_ok])
-      end
-  | H : u32_shl _ _ _ = Ok ?a |- _ =>
-      lazymatch goal with
-      | _ : u32_ok a |- _ => fail
-      | _ => pose proof (u32_shl_range _ _ _ _ H)
-      end
-  end.
-
-Ltac bside :=
-  first [ side
-        | apply rs_normalize_eq; cbn [mant]; first [assumption | apply wrapu64_ok]
-        | apply rs_get_large_eq; assumption
-        | apply rs_error_is_accurate_eq; assumption ].
-Ltac bstep := first [ step_with ltac:(bside) | progress simp | case_head; cbn [andb negb] ]; learn.
-
-Theorem rs_bellerophon_eq : forall BT f b n, btables_ok BT -> fmt_ok f -> u64_ok (nmant n) ->
-  rs_bellerophon BT f b n = bellerophon BT f b n.
-Proof.
-  intros BT f b n HB Hf Hn. pose proof HB as (HB1 & HB2 & HB3).
-  unfold rs_bellerophon, bellerophon, bfp_zero, bfp_inf, i32_rem, i32_div, u64_overflowing_mul.
-  rewrite ?rs_error_scale_eq, ?rs_error_halfscale_eq.
-  pose proof (lz64_range _ Hn).
-  case_head; [reflexivity|]. case_head; [reflexivity|].
-  step.
-  replace (BELL_STEP BT =? -1) with false by lia. rewrite andb_false_r.
-  destruct (BELL_STEP BT =? 0); [reflexivity|]. simp.
-  case_head; [reflexivity|]. case_head; [reflexivity|].
-  repeat bstep.
-  all: try reflexivity.
-  all: rewrite rs_round_eq by assumption; rewrite bind_ret_r; apply round_ext; intros;
-    rewrite rs_round_nearest_tie_even_eq, bind_ret_r; reflexivity.
-Qed.
-
-(** ** slow.rs *)
-Theorem rs_b_eq : forall f b x, rs_b f b x = float_b f b x.
-Proof. intros. unfold rs_b, float_b. crunch. Qed.
-#[export] Hint Rewrite rs_b_eq : rs_eq.
-
-Theorem rs_bh_eq : forall f b x, rs_bh f b x = float_bh f b x.
-Proof. intros. unfold rs_bh, float_bh. repeat step. reflexivity. Qed.
-
-(** the fuelled `while` of the translation against the model's [sci_loop] *)
-Lemma rs_while_sci b k stp : (k =? 0) = false -> forall fuel m e,
-  rs_while fuel (fun '(v_e, v_m) => Ok (k <=? v_m))
-    (fun '(v_e, v_m) => t1 <- u64_div b v_m k ;; t2 <- i32_add b v_e stp ;; Ok (t2, t1)) (e, m)
-  = '(m', e') <- sci_loop b fuel k stp m e ;; Ok (e', m').
-Proof.
-  intros Hk.
-  assert (Hd : forall x, u64_div b x k = Ok (x / k)) by (intros; unfold u64_div; rewrite Hk; reflexivity).
-  induction fuel as [|fuel IH]; intros m e; cbn [rs_while sci_loop bind];
-    destruct (k <=? m); try reflexivity.
-  rewrite (Hd m). cbn [bind].
-  destruct (i32_add b e stp); cbn [bind]; try reflexivity. apply IH.
-Qed.
-
-Theorem rs_scientific_exponent_eq : forall b n,
-  rs_scientific_exponent b n = scientific_exponent b n.
-Proof.
-  intros. unfold rs_scientific_exponent, scientific_exponent.
-  rewrite (rs_while_sci b 10000 4 eq_refl 20). heads.
-  step. destruct a as [m1 e1]. heads.
-  rewrite (rs_while_sci b 100 2 eq_refl 20). heads.
-  step. destruct a as [m2 e2]. heads.
-  rewrite (rs_while_sci b 10 1 eq_refl 20). heads.
-  step. destruct a as [m3 e3]. reflexivity.
-Qed.
-
-(** ** Concrete instances, examples, and the one behavioural difference found *)
-Corollary rs_bellerophon_eq_std : forall f b n, f = F32 \/ f = F64 -> u64_ok (nmant n) ->
-  rs_bellerophon BTABLES f b n = bellerophon BTABLES f b n.
-Proof. intros. apply rs_bellerophon_eq; auto using btables_ok_BTABLES, fmt_ok_std. Qed.
-
-Example rs_bellerophon_example :
-  u64_ok (nmant (mkNumber (-5) 123456789 true)) /\
-  rs_bellerophon BTABLES F32 checked_build (mkNumber (-5) 123456789 true)
-    = bellerophon BTABLES F32 checked_build (mkNumber (-5) 123456789 true) /\
-  is_ok (rs_bellerophon BTABLES F32 checked_build (mkNumber (-5) 123456789 true)) = true.
-Proof. split; [unfold u64_ok; cbn; lia|]. split; vm_compute; reflexivity. Qed.
-
-Example rs_scientific_exponent_example :
-  rs_scientific_exponent release_build (mkNumber (-3) 123456789 false) = Ok 5.
-Proof. vm_compute. reflexivity. Qed.
-
-(** [BELL_STEP BT <> -1] in [btables_ok] is necessary: Rust's `exponent % step` and
-    `exponent / step` panic on `i32::MIN / -1` in every build, the model's [Z.rem]/[Z.quot] do
-    not (the model only guards the zero divisor).  Unreachable with the crate's table (step 10). *)
-Definition BT_step_m1 : btables := mkBTables [] [] [] (-1) (-2147483548) 217706 16.
-Example bellerophon_differs_on_step_m1 :
-  rs_bellerophon BT_step_m1 F64 release_build (mkNumber (-100) 1 false) = Panic PkOverflow /\
-  bellerophon BT_step_m1 F64 release_build (mkNumber (-100) 1 false) = Ok (mkExt 0 0).
-Proof. split; vm_compute; reflexivity. Qed.
-
-Print Assumptions rs_error_scale_eq.
-Print Assumptions rs_error_halfscale_eq.
-Print Assumptions rs_normalize_eq.
-Print Assumptions rs_mul_eq.
-Print Assumptions rs_get_small_eq.
-Print Assumptions rs_get_large_eq.
-Print Assumptions rs_get_small_int_eq.
-Print Assumptions rs_error_is_accurate_eq.
-Print Assumptions rs_bellerophon_eq.
-Print Assumptions rs_bellerophon_eq_std.
-Print Assumptions rs_b_eq.
-Print Assumptions rs_bh_eq.
-Print Assumptions rs_scientific_exponent_eq.
+(** * SrcEquiv2: umbrella (compatibility), see SrcEquiv.v: bellerophon.rs and slow.rs *)
+From ML Require Export proofs.SrcEqBase proofs.SrcEqBell proofs.SrcEqSlowB proofs.SrcEqSci.
